@@ -12,6 +12,8 @@ use tera::value::Key;
 use tera::{Context, Map, Tera, Value};
 
 pub mod pools;
+pub mod corpus;
+pub mod gen_tpl;
 
 // ---------------------------------------------------------------- PRNG (splitmix64)
 
